@@ -111,6 +111,8 @@ func (s *streamWS) RecvMsg(m interface{}) error {
 		if err := protojson.Unmarshal(b, msg); err != nil {
 			return err
 		}
+	} else if s.recvN > 1 {
+		return io.EOF // without a body the URL is the only request message
 	}
 
 	if s.recvN == 1 {
